@@ -127,12 +127,14 @@ def jobs(tier, seed):
             ("A-D3", ["determinize", "min_det"], [0]),
             ("A-D4", ["determinize"], [0, 1])]
     if not quick:
-        plan += [("A-D4", ["min_det", "push"], [0, 1]), ("A-DAG", ["determinize"], [0, 1, 2, 3]), ("A-DAG2", ["min_det"], [0, 1, 2]), ("A-S1", ["push", "trim", "trim_vals"], []), ("A-EPS2", ["push", "trim", "trim_vals"], [0])]
+        plan += [("A-D4", ["min_det", "push"], [0, 1]), ("A-CYC", ["determinize", "push", "trim", "trim_vals"], [0]), ("A-DAG", ["determinize"], [0, 1, 2, 3]), ("A-DAG2", ["min_det"], [0, 1, 2]), ("A-S1", ["push", "trim", "trim_vals"], []), ("A-EPS2", ["push", "trim", "trim_vals"], [0])]
     for sh, ops_, bits in plan:
         sk = automaton(sh)
         alw = list(range(len(sk.arcs), sk.K))  # initial/final weights always present; arc weights free
         for op in ops_:
             prm = dict(shape=sh, ops=[op], always=alw)
+            if sh == "A-CYC":
+                prm["L"] = 5
             if sh == "A-D4":
                 prm["const"] = {"4": 1, "5": 1}  # the two continuation arcs carry weight one: four symbolic residual weights
                 prm["L"] = 3  # longest path has two symbols
